@@ -231,6 +231,10 @@ def run(ctx):
             http_error = status >= 400
             if len(reqs) > 1:
                 bad = 'more than one request sent'
+            if op == 'authenticate' and not reqs:
+                # authenticate() has no precondition on the token: it always asks the service, and its outcome is the reply's
+                bad = 'authenticate(%r, …, invalidate_previous=%s) posted nothing to the service (out=%s, token before %r)' % (
+                    args[0], args[2], out, before)
             if op == 'validate' and before[1] is not None:
                 if (out == 'ret:1') != (status == 204):
                     bad = 'validate returned %s for status %d' % (out, status)
